@@ -8,6 +8,7 @@ import (
 	"bytes"
 	"context"
 	"fmt"
+	"io"
 	"os"
 	"sync"
 	"testing"
@@ -27,6 +28,7 @@ import (
 
 	"verif/internal/hx"
 	"verif/internal/keys"
+	"verif/internal/memnet"
 	"verif/internal/stats"
 )
 
@@ -143,6 +145,7 @@ func fuzzOne(w *world, data []byte, mode byte) (consumed bool, failure string) {
 	fc := &fakeConn{net: h.net, idx: 0, local: w.local.ID, remote: w.p.ID, remoteKey: w.p.Pub,
 		laddr: ma.StringCast("/ip4/44.99.0.1/tcp/4001"), raddr: raddr, dir: network.DirInbound}
 	push := mode&1 == 0
+	remoteCh := make(chan *memnet.Conn, 1)
 	fc.open = func(ctx context.Context, c *fakeConn) (network.Stream, error) {
 		s, remote := c.pipe(network.DirOutbound)
 		if push { // the identify request goes unanswered; only the push carries the data
@@ -151,17 +154,21 @@ func fuzzOne(w *world, data []byte, mode byte) (consumed bool, failure string) {
 		}
 		remote.Write(append(append(msLine("/multistream/1.0.0"), msLine(identify.ID)...), data...))
 		remote.CloseWrite()
+		remoteCh <- remote
 		return s, nil
 	}
 	h.net.add(fc)
 	h.net.notifyConnected(fc)
-	<-ids.IdentifyWait(fc)
 	if push {
 		s, remote := fc.pipe(network.DirInbound)
 		s.SetProtocol(identify.IDPush)
 		remote.Write(data)
 		remote.CloseWrite()
 		h.handler(identify.IDPush)(s)
+	} else {
+		// identify is done with the message when it closes or resets its end of the stream
+		// (no clock involved: the content was complete before it started reading)
+		io.Copy(io.Discard, <-remoteCh)
 	}
 	select {
 	case <-sub.Out():
@@ -208,8 +215,14 @@ func fuzzOne(w *world, data []byte, mode byte) (consumed bool, failure string) {
 	if protos, _ := ps.GetProtocols(p); len(protos) > 1024 {
 		return consumed, fmt.Sprintf("%d protocols retained for the remote peer (cap 1024)", len(protos))
 	}
-	if ps.GetPeerRecord(p) != nil {
-		return consumed, "a signed peer record appeared in the certified address book for the remote peer"
+	if e := ps.GetPeerRecord(p); e != nil { // this version keeps none; one that is kept must be p's own
+		want, _ := ic.MarshalPublicKey(w.p.Pub)
+		kb, _ := ic.MarshalPublicKey(e.PublicKey)
+		rec, err := e.Record()
+		pr, _ := rec.(*peer.PeerRecord)
+		if err != nil || pr == nil || pr.PeerID != p || !bytes.Equal(kb, want) {
+			return consumed, "a signed peer record that the peer did not sign for itself is kept for it in the certified address book"
+		}
 	}
 	// the connection goes away: what is left must be on a finite lifetime (the address
 	// book runs on a clock of its own here, everything else on real time)
